@@ -414,3 +414,6 @@ _quick("C06", "C06_longrecycle", "every program of 6 events out of {new hold on 
 _quick("C07", "C07_program", "every program of 5 operations persisted at once, from {LOCK key1 by L1 (re-entrant), LOCK key2 by L2, value-only LOCK on key1 (Expried 0 with SET), LOCK key1 by L3 (Count 1), UNLOCK L1, UNLOCK L2, UNLOCK L3}, then a restart: per key the same LockIds, depths and value (Lock objects pass through the shard's pool in every order)", ["-witness", "100"], reach=["end", "held"])
 
 _quick("C09", "C09_backpressure", "the follower's live-stream reader (real ReplicationClient.Process) over 700 records with its three pipeline stages scheduled by the harness: two stages keep up, the third (replay / append / re-publish) takes one record in hand after 0 / 100 / 250 records and stalls until its queue is full, then catches up; every stage sees every record once, in order, with the content it was sent with (a receive buffer is never refilled while a stage still holds it)", [], reach=["end", "stalled-full"], native=False)
+
+_quick("C10", "C10_stepdown", "a leader with a holder (E = 3 s) and a queued client request steps down through the real SLock.updateState to each of the five non-leader states; inside the step-down's wait (ReplicationManager.WaitServerSynced replaced by a harness function) one event happens: the holder's deadline passes (6 s through the real sweeps), a client LOCK on another key, the holder's client UNLOCK — nothing granted or released, STATE_ERROR to the client", [], reach=["end"], native=False)
+_quick("C11", "C11_lateack", "key of capacity 5 with a plain holder; ack-required lock A goes pending (1..2 followers, mode all), the persistence channel drained before or only after A's wait times out; exactly one error reply; ack-required lock B (same or another LockId) goes pending; 1..F positive acknowledgements naming A's record arrive late; then B's own flush report and F acknowledgements in both orders: B is answered SUCCED exactly once and only after its own acknowledgements", ["-witness", "1"], reach=["end", "a-timed-out", "late-acks"])
